@@ -1408,11 +1408,11 @@ CONTRACTS = [
     Contract("wntr.epanet.io:InpFile._write_pumps/_read_pumps", P + ["C03"],
              [_pump_case(u, k, s1, hp) for u in _U for (k, s1, hp) in (("POWER", True, False), ("POWER", False, True), ("HEAD", True, True), ("HEAD", False, False))],
              interpret_always=(_roundtrip_call,), trusted=_pair_trust + ["the head curve itself is read through [CURVES] (bounded round trip)"]),
-    Contract("wntr.epanet.io:_EpanetRule.add_control_condition/add_action_on_true/add_action_on_false/generate_control", P + ["C03"],
+    Contract("wntr.epanet.io:_EpanetRule.add_control_condition/add_action_on_true/add_action_on_false/generate_control", P + ["C03", "C13"],
              [_rule_case(u, ck, _ACT_KINDS[ck % 6], _ACT_KINDS[(ck + 2) % 6]) for u in _U for ck in range(len(_COND_KINDS))],
              models=_rule_models, interpret_always=(_rule_pair,),
              trusted=_pair_trust + ["text splitting of the [RULES] section into clauses (parse_rules_lines): bounded round trip"]),
-    Contract("wntr.epanet.io:InpFile._write_controls/_read_controls/_read_control_line", P + ["C03"],
+    Contract("wntr.epanet.io:InpFile._write_controls/_read_controls/_read_control_line", P + ["C03", "C13"],
              [_control_case(u, *k) for u in _U for k in _CTL_KINDS] +
              [_control_case(u, *k, strict=False) for u in (FlowUnits.GPM, FlowUnits.LPS) for k in _CTL_KINDS[:4]], models=_control_models, interpret_always=(_roundtrip_call,),
              note="conditional simple controls (tank level / junction pressure, above / below) with a status, valve setting or pump speed action; "
